@@ -15,6 +15,7 @@ from .core import (
     BaseField,
     Config,
     ConfigType,
+    ConfigTypeField,
     ConfigValidator,
     Field,
     FieldValidator,
@@ -180,6 +181,9 @@ def validator(field: BaseField) -> Callable:
                 field.validator = chained  # type: ignore
         elif isinstance(field, Schema):
             field._validators.append(func)  # type: ignore
+        elif isinstance(field, ConfigTypeField):
+            # a sub-configuration declared through make_type(): validate the wrapped schema
+            field.config_type.__schema__._validators.append(func)  # type: ignore
 
         return func
 
